@@ -329,7 +329,7 @@ pub fn explore<W: World + ?Sized>(w: &W, b: &Bounds, rep: &mut Report) {
         }
         // process in chunks so the wall cap is honoured inside a level
         let mut next: Vec<Node<W>> = vec![];
-        let chunk = 512usize;
+        let chunk = 128usize;
         let mut level_complete = true;
         let mut idx = 0usize;
         while idx < frontier.len() {
